@@ -364,9 +364,22 @@ func (a *Act) binop(st *State, op token.Token, x, y Val, t types.Type, pos token
 	vc := a.vc
 	bl := func(s string) Val { return Val{S: s, Sort: sBool, T: t} }
 	switch op {
-	case token.EQL:
-		return bl(a.equal(st, x, y))
-	case token.NEQ:
+	case token.EQL, token.NEQ:
+		// slice == nil compares the data pointer only
+		if x.Sort == sSlice && (x.S == "(mk_Slice 0 0 0 0)" || y.S == "(mk_Slice 0 0 0 0)") {
+			o := x
+			if x.S == "(mk_Slice 0 0 0 0)" {
+				o = y
+			}
+			r := eq("(sl_arr "+o.S+")", "0")
+			if op == token.NEQ {
+				r = not(r)
+			}
+			return bl(r)
+		}
+		if op == token.EQL {
+			return bl(a.equal(st, x, y))
+		}
 		return bl(not(a.equal(st, x, y)))
 	case token.LSS, token.LEQ, token.GTR, token.GEQ:
 		if x.Sort == sStr {
